@@ -43,6 +43,11 @@ ASSUMPTIONS = [
     "carets: compiled values must be non-decreasing, equal as a set to the rounded anchor "
     "coordinates, a value repeated at most as often as anchors round to it",
     "user GDEF blocks that define LigatureCaret statements: caret clause not judged (counted)",
+    "two dedicated strata (duplicate caret anchor names, 2 %; categories that leave every exported "
+    "glyph unassigned + user GDEF block without GlyphClassDef + mark anchors, 1 %) reproduce "
+    "mechanisms that disagree with the statement on the unchanged tree; each is generated only "
+    "while its key is listed in known_findings.json (DESIGN section 6: one stratum per listed "
+    "mechanism) or when VERIF_C18_ALL_STRATA=1; the default stratum avoids both",
 ]
 NONVACUITY = ["class_glyphs_judged", "class_fonts_judged", "class_invalid_values", "class_ghost_entries",
               "class_skipped_entries", "user_gdef_class_fonts", "caret_glyphs_judged",
@@ -81,7 +86,7 @@ INVALID_VALUES = ["Mark", "bases", "", "none", "Ligature", "spacing", "MARK", "0
 
 
 def n_cases(tier):
-    return 3000 if tier == "quick" else 60000
+    return 3000 if tier == "quick" else 50000
 
 
 def budget_s(tier):
